@@ -130,7 +130,7 @@ class Controller:
             self.cv.notify_all()
 
     # ---- driver side
-    def wait_quiescent(self, timeout: float = 20.0) -> None:
+    def wait_quiescent(self, timeout: float = 90.0) -> None:
         """Wait until every live thread is parked at a gate."""
         end = time.time() + timeout
         with self.cv:
@@ -226,8 +226,15 @@ class ShimQueue(_queue.Queue):
                 nothing = not self._qsize()
             if nothing:
                 ctl.event("timeout", self.name, 0)
+                # the expiry was decided under the queue's mutex; the exception reaches the caller later - other
+                # threads may run in between (check-then-act races on "nothing came" live in exactly that window)
+                ctl.gate("tmo", self.name, "timed")
                 raise _queue.Empty
-        if tid is not None:
+        # "waiting in get" is true from here until the moment the item is TAKEN (cleared in _get, inside the queue's
+        # mutex) - not until get() returns: a thread that already holds an item but has not been scheduled again is
+        # not waiting, however long the operating system keeps it off the processor. A timed get is never counted
+        # as waiting (it can expire by itself).
+        if tid is not None and block and timeout is None:
             ctl.in_get[tid] = self.name
         try:
             return super().get(block, timeout)
@@ -242,7 +249,11 @@ class ShimQueue(_queue.Queue):
 
     def _get(self):
         item = super()._get()
-        type(self).ctl.event("get", self.name, abstract(item))
+        ctl = type(self).ctl
+        tid = ctl.tid()
+        if tid is not None:
+            ctl.in_get.pop(tid, None)
+        ctl.event("get", self.name, abstract(item))
         return item
 
 
